@@ -283,6 +283,27 @@ func init() {
 	// ---- Value methods ----
 	R("(reflect.Value).Kind", func(e *Exec, _ *frame, a []Value) Value { return int64(kindOf(rv(a[0]).t)) })
 	R("(reflect.Value).IsValid", func(e *Exec, _ *frame, a []Value) Value { return rv(a[0]).t != nil })
+	R("(reflect.Value).CanInt", func(e *Exec, _ *frame, a []Value) Value {
+		switch kindOf(rv(a[0]).t) {
+		case reflect.Int, reflect.Int8, reflect.Int16, reflect.Int32, reflect.Int64:
+			return true
+		}
+		return false
+	})
+	R("(reflect.Value).CanUint", func(e *Exec, _ *frame, a []Value) Value {
+		switch kindOf(rv(a[0]).t) {
+		case reflect.Uint, reflect.Uint8, reflect.Uint16, reflect.Uint32, reflect.Uint64, reflect.Uintptr:
+			return true
+		}
+		return false
+	})
+	R("(reflect.Value).CanFloat", func(e *Exec, _ *frame, a []Value) Value {
+		switch kindOf(rv(a[0]).t) {
+		case reflect.Float32, reflect.Float64:
+			return true
+		}
+		return false
+	})
 	R("(reflect.Value).Comparable", func(e *Exec, _ *frame, a []Value) Value {
 		r := rv(a[0])
 		return e.valueComparable(r.t, r.v)
